@@ -244,7 +244,7 @@ int Simulate1802::dump_ram(int start, int end)
   printf("       x0  x1  x2  x3  x4  x5  x6  x7  x8  x9  xA  xB  xC  xD  xE  xF\n");
 
   int i = 0;
-  while (i != (end - start))
+  while (i < (end - start))
   {
     if (i % 16 == 0)
     {
